@@ -61,6 +61,12 @@ Section Norm.
        (match f with Attr _ _ => False | Name x => find_func (w_ft W) x = None | _ => True end) ->
        norm G f f' -> Forall2 (norm G) args args' -> Forall2 (norm G) kwv kwv' ->
        norm G (Call f args kwn kwv) (Call f' args' kwn kwv')
+   | norm_called_lambda ps b b' args args' ts ev :                      (* (lambda x, ...: body)(a, ...): the body one lambda level deeper *)
+       called_ok ps args [] [] = true ->
+       follow_list_with (follow_x W G) args = Ok (args', ts, ev) ->   (* the types the follower computed for the arguments *)
+       Forall2 (norm G) args args' ->
+       norm (bind_params ps ts G) b b' ->
+       norm G (Call (Lambda ps b) args [] []) (Call (Lambda ps b') args' [] [])
    | norm_call_function x fn args kwn kwv args' kwv' site0 out :       (* registered function *)
        find_func (w_ft W) x = Some fn ->
        Forall2 (norm G) args args' -> Forall2 (norm G) kwv kwv' ->
@@ -450,7 +456,7 @@ Section Main.
       clear Hok.
       assert (Hout : exists bo m, mr_obj r = Some (bo, m) /\ rewritten (mr_node r) out).
       { inversion Hres as [r' bo mcls m args2 kws2 _ _ Ho _ _ | r' c item targs mcls m x kws2 p k b' t' ev' _ _ _ Ho _ _ _ _ _];
-          subst; rewrite Ho in H;
+          subst; rewrite Ho in H; destruct (callbacks_of W tv a _) as [cbo cm];
           match type of H with context [method_callbacks W ?b ?mm ?n] =>
             pose proof (method_callbacks_rewritten W b mm n) as Hrw;
             destruct (method_callbacks W b mm n) as [site evs] end;
@@ -497,8 +503,9 @@ Section Main.
     { eapply loop_ok; [apply incl_refl | | exact Hloop]. intros r0 E. discriminate. }
     assert (Hn : is_call (mr_node r) = true) by (inversion Hres; subst; match goal with Hx : mr_node _ = _ |- _ => rewrite Hx end; reflexivity).
     destruct (mr_obj r) as [[bo m]|].
-    - pose proof (method_callbacks_rewritten W bo m (mr_node r)) as Hrw.
-      destruct (method_callbacks W bo m (mr_node r)) as [site evs]. inversion H; subst.
+    - destruct (callbacks_of W tv a (bo, m)) as [cbo cm].
+      pose proof (method_callbacks_rewritten W cbo cm (mr_node r)) as Hrw.
+      destruct (method_callbacks W cbo cm (mr_node r)) as [site evs]. inversion H; subst.
       eapply rewritten_is_call; eauto.
     - inversion H; subst. exact Hn.
   Qed.
@@ -521,12 +528,7 @@ Section Main.
     - rewrite fx_Const in H. inversion H.
     - rewrite fx_Attr in H. crush H. inversion H.
     - exfalso.
-      assert (Hcases : (exists v a, e = Attr v a) \/ (exists v a s, e = Subscript (Attr v a) s) \/ plain_callee e).
-      { destruct e; try (right; right; exact I); try (left; eauto; fail).
-        match goal with |- context [plain_callee (Subscript ?x ?y)] => destruct x end;
-          try (right; right; exact I).
-        right; left; eauto. }
-      destruct Hcases as [(v & a & ->)|[(v & a & s & ->)|Hplain]].
+      destruct (callee_cases e) as [(v & a & ->)|[(v & a & s & ->)|[(ps & b & ->)|Hplain]]].
       + rewrite fx_Call_method in H. crush H. inversion H; subst.
         match goal with Hp : process_method_call _ _ _ _ _ _ _ = _ |- _ => apply pmc_is_call in Hp; discriminate end.
       + rewrite fx_Call_param in H. crush H.
@@ -536,6 +538,7 @@ Section Main.
           destruct (get_method_and_class _ _ _) as [[? [?|[?|]]]|]; try discriminate;
           destruct (literal_eval _); try discriminate; inversion Hp as [[Hn Ht He]] end.
         destruct (cb_rw _); discriminate.
+      + rewrite fx_Call_lambda in H. crush H. destruct (called_ok ps args kwn kwv); [crush H|]; inversion H.
       + rewrite fx_Call_plain in H by exact Hplain. crush H.
         match type of H with context [match ?f with _ => _ end] => destruct f end; try (inversion H; fail).
         destruct (find_func (w_ft W) id) as [fn|]; [|inversion H].
@@ -611,12 +614,7 @@ Section Main.
       apply nc_Attr. eapply (proj1 IHe); eauto.
     - cbn. apply IHe.
     - (* Call *)
-      assert (Hcases : (exists v a, e = Attr v a) \/ (exists v a s, e = Subscript (Attr v a) s) \/ plain_callee e).
-      { destruct e; try (right; right; exact I); try (left; eauto; fail).
-        match goal with |- context [plain_callee (Subscript ?x ?y)] => destruct x end;
-          try (right; right; exact I).
-        right; left; eauto. }
-      destruct Hcases as [(v & a & ->)|[(v & a & s & ->)|Hplain]].
+      destruct (callee_cases e) as [(v & a & ->)|[(v & a & s & ->)|[(ps & b & ->)|Hplain]]].
       + rewrite fx_Call_method in HE.
         inv_bind HE x Hv. destruct x as [[[v' tv] auxv] ev0].
         inv_bind HE ta Hat. inv_bind HE x Hargs. destruct x as [[args' ts1] ev1].
@@ -648,6 +646,19 @@ Section Main.
           unfold process_parameterized in Hp.
           destruct (get_method_and_class (w_ct W) tv a) as [[c0 [m0|[id|]]]|]; try discriminate.
           destruct (literal_eval s'); [|discriminate]. inversion Hp; subst. econstructor. constructor.
+      + (* an immediately called lambda *)
+        rewrite fx_Call_lambda in HE.
+        inv_bind HE x Hargs. destruct x as [[args' ts1] ev1].
+        inv_bind HE x Hkwv. destruct x as [[kwv' ts2] ev2].
+        pose proof (fl_norm G _ H _ _ _ Hargs) as Hna. pose proof (fl_norm G _ H0 _ _ _ Hkwv) as Hnk.
+        destruct (called_ok ps args kwn kwv) eqn:Eok.
+        * inv_bind HE x Hb. destruct x as [[[b' tb] auxb] ev3]. inversion HE; subst.
+          assert (kwn = [] /\ kwv = []).
+          { unfold called_ok in Eok. destruct kwn; destruct kwv; try (rewrite ?andb_false_r in Eok; discriminate); auto. }
+          destruct H1 as [-> ->]. cbn in Hkwv. inversion Hkwv; subst.
+          eapply norm_called_lambda; eauto.
+          destruct IHe as [_ Hsub]. cbn in Hsub. eapply Hsub; eauto.
+        * inversion HE; subst. apply norm_call_untyped; auto. apply norm_leaf; reflexivity.
       + rewrite fx_Call_plain in HE by exact Hplain.
         inv_bind HE x Hf. destruct x as [[[f' tf] auxf] ev0].
         inv_bind HE x Hargs. destruct x as [[args' ts1] ev1].
